@@ -143,8 +143,9 @@ class _SimNet(fakezmq.Net):
 
 class ClusterSim:
     def __init__(self, job, cluster: list[dict], chooser: Chooser, inject_failure_at: int | None = None,
-                 max_idle_rounds: int = 100):
+                 max_idle_rounds: int = 100, slow_data: bool = False):
         _patch_once()
+        self.slow_data = slow_data  # schedule bias: data-server commands (transfers, fetches) tend to stay pending
         self.job = job
         self.ch = chooser
         self.breaches: list[Breach] = []
@@ -492,8 +493,15 @@ class ClusterSim:
                 self.breach("C03", "wait-on-nothing", "controller waits for events but nothing is running, queued or in flight "
                             f"(dispatched {len(self.dispatched)}/{len(self.job.tasks)} tasks, completed {len(self.completed)})")
                 raise SimAbort("deadlock")
-            n = len(steps) + (1 if can_return else 0)
-            i = self.ch.choose(n)
+            if self.slow_data:
+                # every step is still possible at every point; commands waiting at a data server are just picked less often
+                weighted = [j for j, st_ in enumerate(steps) for _ in range(1 if (st_[0] == "D" and st_[2] == "ctrl") else 5)]
+                if can_return:
+                    weighted += [len(steps)] * 5
+                i = weighted[self.ch.choose(len(weighted))]
+            else:
+                n = len(steps) + (1 if can_return else 0)
+                i = self.ch.choose(n)
             if i == len(steps):
                 break
             self._step(steps[i])
@@ -512,9 +520,9 @@ class ClusterSim:
         return evs
 
 
-def simulate(job, cluster: list[dict], chooser: Chooser, inject_failure_at: int | None = None) -> dict:
+def simulate(job, cluster: list[dict], chooser: Chooser, inject_failure_at: int | None = None, slow_data: bool = False) -> dict:
     """Runs the real controller against the simulated cluster. Returns a result dict; never raises for what the code under test does."""
-    sim = ClusterSim(job, cluster, chooser, inject_failure_at)
+    sim = ClusterSim(job, cluster, chooser, inject_failure_at, slow_data=slow_data)
     _CUR["sim"] = sim
     sim.net.on_block = sim._on_block
     res: dict[str, Any] = {"sim": sim, "state": None, "exc": None}
